@@ -207,6 +207,14 @@ func errName(err error) string {
 	if se, ok := err.(*SimErr); ok {
 		return se.Error()
 	}
+	switch err {
+	case io.ErrUnexpectedEOF:
+		return "io.ErrUnexpectedEOF"
+	case io.ErrClosedPipe:
+		return "io.ErrClosedPipe"
+	case io.ErrNoProgress:
+		return "io.ErrNoProgress"
+	}
 	return "other(" + err.Error() + ")"
 }
 
@@ -550,8 +558,7 @@ func (x *pexec) doReadFrom(op *Op) string {
 
 func lastCallFailed(rd *SimReader) bool {
 	// the last Read call returned a non-nil, non-EOF error
-	_, ok := rd.lastRet.(*SimErr)
-	return ok
+	return isReaderFault(rd.lastRet)
 }
 
 // --- Parse -----------------------------------------------------------------
@@ -757,7 +764,7 @@ func (x *pexec) doParse(op *Op, wrapped bool) string {
 	return ob
 }
 
-func isSimErr(err error) bool { _, ok := err.(*SimErr); return ok }
+func isSimErr(err error) bool { return isReaderFault(err) }
 
 // checkBlock walks the block against the model.
 func (x *pexec) checkBlock(blk *lz.Block, op *Op, w, limit int, wrapped bool) {
